@@ -278,7 +278,14 @@ func TestC17(t *testing.T) {
 	s := kit.Open(t, "C17")
 	run := func(c c17Case) *kit.Failure { return runC17(t, s, c) }
 	// process mode: the OS owns the schedule, so a replay repeats the case
-	runProc := func(c c17ProcCase) *kit.Failure { return runC17ProcOnce(t, s, c) }
+	runProc := func(c c17ProcCase) *kit.Failure {
+		for r := 0; r < max(1, c.Rounds); r++ {
+			if f := runC17ProcOnce(t, s, c); f != nil {
+				return f
+			}
+		}
+		return nil
+	}
 	if rf := kit.Replay(t); rf != nil {
 		if rf.Kind == "processes" {
 			kit.DoReplay(s, t, rf, func(c c17ProcCase) *kit.Failure {
